@@ -8,6 +8,11 @@ VERIF = os.path.dirname(os.path.dirname(os.path.abspath(__file__)))
 BASELINE_OFF = "/verif/tool/baseline.sh"
 
 CLAIMED = {
+    "C12": dict(
+        technique="static analysis: index-role typing (active / global / input-box) of every subscript in FieldProps.cpp and FieldData.hpp, stride and coverage rules, call-site kind agreement, enumerator/keyword/arithmetic pairing tables (clang AST)",
+        text="Decides the structural necessary condition of 'the value in an active cell never depends on which other cells are inactive': containers are only subscripted with an index of their own role; block strides of multi-value arrays are the cell count of that role; storage addressed by global index is filled while visiting all cells of the box, not only the active ones; generic primitives are called with storage and index list of the same kind; keyword names, ScalarOperation enumerators and arithmetic are paired correctly (ADD/MULTIPLY/EQUALS/MINVALUE/MAXVALUE); record-driven handlers update the box before taking an index list. Not decided: the sequential semantics cell by cell (reference interpreter; runtime).",
+        note="Trusted: the role table in rules/C12.py. Subscripts where only one side has a known role are counted, never flagged.",
+        design="DESIGN.md §4 C12"),
     "C16": dict(
         category="translation_validation",
         technique="static analysis / translation validation: every member of the twelve hand-unrolled Evaluation<N> files is compared, statement list by statement list, with the generic implementation after unrolling its loops for N (clang AST, normalised); slot-uniformity lint; same-slot chain-rule lint on Math.hpp",
